@@ -105,6 +105,8 @@ World::World(const Plan& p)
     plife = static_cast<uint64_t>(plan.cfgGet("plife", 0));
     clockJumpSeed = static_cast<uint64_t>(plan.cfgGet("clockjump", 0));
     shareInput = plan.cfgGet("shareinput", 0) != 0;
+    if (plan.cfgGet("lit", 0))
+        fault("plan-field-set-to-a-source-literal");
     if (clockJumpSeed)
         fault("wall-clock-jumps");
     lib::setHostileLocale(is("C15") && plan.cfgGet("locale", 0) != 0);
